@@ -34,26 +34,27 @@ import (
 //verif:override (*github.com/ethereum/go-ethereum/accounts/abi.ABI).EventByID -> c10EventByID
 
 var (
-	c10Token     = common.HexToAddress("0xE000000000000000000000000000000000000001") // the registered token contract
-	c10Stranger  = common.HexToAddress("0xE000000000000000000000000000000000000002") // an unregistered contract
-	c10User      = common.HexToAddress("0x1000000000000000000000000000000000000001")
-	c10Other     = common.HexToAddress("0x3000000000000000000000000000000000000003")
-	c10Transfer  = common.HexToHash("0x01") // stands for keccak("Transfer(address,address,uint256)")
-	c10Approval  = common.HexToHash("0x02") // stands for keccak("Approval(address,address,uint256)")
-	c10Unknown   = common.HexToHash("0x03")
+	c10Token    = common.HexToAddress("0xE000000000000000000000000000000000000001") // the registered token contract
+	c10Stranger = common.HexToAddress("0xE000000000000000000000000000000000000002") // an unregistered contract
+	c10User     = common.HexToAddress("0x1000000000000000000000000000000000000001")
+	c10Other    = common.HexToAddress("0x3000000000000000000000000000000000000003")
+	c10Transfer = common.HexToHash("0x01") // stands for keccak("Transfer(address,address,uint256)")
+	c10Approval = common.HexToHash("0x02") // stands for keccak("Approval(address,address,uint256)")
+	c10Unknown  = common.HexToHash("0x03")
 )
 
 var c10 struct {
-	honest     bool
-	bal        map[common.Address]*big.Int // token ledger of the honest contract
-	total      *big.Int
-	method     string
-	args       []interface{}
-	answer     *big.Int // what the next balanceOf unpacks to
-	boolAnswer bool     // what the next transfer() return value unpacks to
-	logAmounts []*big.Int
-	calls      int
-	paused     bool
+	honest       bool
+	bal          map[common.Address]*big.Int // token ledger of the honest contract
+	total        *big.Int
+	method       string
+	args         []interface{}
+	answer       *big.Int // what the next balanceOf unpacks to
+	boolAnswer   bool     // what the next transfer() return value unpacks to
+	logAmounts   []*big.Int
+	calls        int
+	paused       bool
+	approvalSeen bool // the adversarial token emitted an Approval log during a call
 }
 
 func c10Pack(a abi.ABI, name string, args ...interface{}) ([]byte, error) {
@@ -107,9 +108,11 @@ func (c10EVM) GetAccountWithoutBalance(ctx sdk.Context, addr common.Address) *st
 func (c10EVM) EstimateGasInternal(c context.Context, req *evmtypes.EthCallRequest, fromType evmtypes.CallType) (*evmtypes.EstimateGasResponse, error) {
 	return &evmtypes.EstimateGasResponse{Gas: 100000}, nil
 }
-func (c10EVM) AddEVMExtensions(ctx sdk.Context, precompiles ...vm.PrecompiledContract) error { return nil }
-func (c10EVM) DeleteAccount(ctx sdk.Context, addr common.Address) error                      { return nil }
-func (c10EVM) IsAvailablePrecompile(addr common.Address) bool                                { return false }
+func (c10EVM) AddEVMExtensions(ctx sdk.Context, precompiles ...vm.PrecompiledContract) error {
+	return nil
+}
+func (c10EVM) DeleteAccount(ctx sdk.Context, addr common.Address) error { return nil }
+func (c10EVM) IsAvailablePrecompile(addr common.Address) bool           { return false }
 func (c10EVM) ApplyMessage(ctx sdk.Context, msg core.Message, tracer vm.EVMLogger, commit bool) (*evmtypes.MsgEthereumTxResponse, error) {
 	c10.calls++
 	ok := &evmtypes.MsgEthereumTxResponse{Ret: []byte{1}}
@@ -123,7 +126,16 @@ func (c10EVM) ApplyMessage(ctx sdk.Context, msg core.Message, tracer vm.EVMLogge
 			return failed, nil
 		}
 		if zz.AnyBool(tag + ".emitsApproval") {
-			ok.Logs = []*evmtypes.Log{{Address: c10Token.Hex(), Topics: []string{"0x8c5be1e5ebec7d5bd14f71427d1e84f3dd0314c0f7b2291e5b200ac8c7c3b925"}}}
+			// Approval(address,address,uint256) with its parameters indexed (3 topics) or declared without "indexed" (same
+			// signature hash, 1 topic)
+			topics := []string{"0x8c5be1e5ebec7d5bd14f71427d1e84f3dd0314c0f7b2291e5b200ac8c7c3b925"}
+			if zz.AnyBool(tag + ".approvalIndexed") {
+				topics = append(topics, common.BytesToHash(c10User.Bytes()).Hex(), common.BytesToHash(types.ModuleAddress.Bytes()).Hex())
+			}
+			ok.Logs = []*evmtypes.Log{{Address: c10Token.Hex(), Topics: topics}}
+			if c10.method != "balanceOf" { // a read-only call cannot emit anything
+				c10.approvalSeen = true
+			}
 		}
 		return ok, nil
 	}
@@ -174,8 +186,10 @@ func (c10EVM) ApplyMessage(ctx sdk.Context, msg core.Message, tracer vm.EVMLogge
 
 type c10AK struct{}
 
-func (c10AK) GetModuleAddress(moduleName string) sdk.AccAddress      { return authtypes.NewModuleAddress(moduleName) }
-func (c10AK) GetSequence(sdk.Context, sdk.AccAddress) (uint64, error) { return 0, nil }
+func (c10AK) GetModuleAddress(moduleName string) sdk.AccAddress {
+	return authtypes.NewModuleAddress(moduleName)
+}
+func (c10AK) GetSequence(sdk.Context, sdk.AccAddress) (uint64, error)   { return 0, nil }
 func (c10AK) GetAccount(sdk.Context, sdk.AccAddress) authtypes.AccountI { return nil }
 
 // c10Bank: coin ledger (one denomination per pair): account balances, module escrow, supply.
@@ -369,6 +383,9 @@ func VerifC10_Adversarial() {
 	if err != nil {
 		zz.Reach("rejected")
 		return
+	}
+	if !coinOrigin { // the contract of a coin-origin pair is the module's own; an ERC20-origin pair's contract is foreign code
+		zz.Assert(!c10.approvalSeen, "a conversion during which the foreign token emitted an Approval event (indexed or not) is refused")
 	}
 	// success: the coin side moved by exactly the amount, whatever the contract did
 	if toCoins {
